@@ -188,6 +188,9 @@ type Oblig struct {
 	Model    string
 	Output   string
 	Expect   string // "" normal; "sat" for vacuity covers
+	Rel      []string // non-interference: names of the poison constants; Goal is an equality  t == t  whose
+	//                   right-hand side is to be read in a second copy of the query with fresh poison
+	RelTerms []Term   // the terms that must not depend on the poison
 	SMTBytes int
 	SMTFile  string
 	Retried  bool
@@ -669,6 +672,9 @@ func (c *Ctx) emitMany(os []*Oblig, allAxioms bool) (string, bool) {
 			roots = append(roots, e.S)
 		}
 		roots = append(roots, o.Goal.S)
+		for _, t := range o.RelTerms {
+			roots = append(roots, t.S)
+		}
 		if len(os) == 1 {
 			// single obligation: keep the classic shape (hypotheses as separate assertions)
 			for _, l := range local {
@@ -871,7 +877,81 @@ func (c *Ctx) emitMany(os []*Oblig, allAxioms bool) (string, bool) {
 		seenH[h.S] = true
 		fmt.Fprintf(&b, "(assert %s)\n", h.S)
 	}
-	if len(goals) == 1 {
+	if len(os) == 1 && len(os[0].Rel) > 0 {
+		// second copy of every definition that depends on a poison constant
+		o := os[0]
+		dep := map[string]bool{}
+		for _, p := range o.Rel {
+			dep[p] = true
+		}
+		prime := func(text string) string {
+			var sb strings.Builder
+			i, n := 0, len(text)
+			for i < n {
+				ch := text[i]
+				if ch == '(' || ch == ')' || ch == ' ' {
+					sb.WriteByte(ch)
+					i++
+					continue
+				}
+				j := i
+				for j < n && text[j] != '(' && text[j] != ')' && text[j] != ' ' {
+					j++
+				}
+				tok := text[i:j]
+				if dep[tok] {
+					sb.WriteString(tok + "_2")
+				} else {
+					sb.WriteString(tok)
+				}
+				i = j
+			}
+			return sb.String()
+		}
+		for _, d := range c.defs {
+			if !need[d.Name] {
+				continue
+			}
+			if dep[d.Name] && d.Body == "" {
+				fmt.Fprintf(&b, "(declare-fun %s_2 () %s)\n", d.Name, d.Sort)
+				continue
+			}
+			if d.Body == "" {
+				continue
+			}
+			if d.deps == nil {
+				d.deps = scanNames(d.Body)
+			}
+			for _, x := range d.deps {
+				if dep[x] {
+					dep[d.Name] = true
+					break
+				}
+			}
+			if dep[d.Name] {
+				fmt.Fprintf(&b, "(define-fun %s_2 () %s %s)\n", d.Name, d.Sort, prime(d.Body))
+			}
+		}
+		for h := range seenH {
+			if p := prime(h); p != h {
+				fmt.Fprintf(&b, "(assert %s)\n", p)
+			}
+		}
+		var eqs []string
+		for _, t := range o.RelTerms {
+			if p := prime(t.S); p != t.S {
+				eqs = append(eqs, fmt.Sprintf("(= %s %s)", t.S, p))
+			}
+		}
+		g := goals[0]
+		if pg := prime(g); pg != g {
+			// both copies reach this point
+			fmt.Fprintf(&b, "(assert %s)\n(assert %s)\n", g, pg)
+		} else {
+			fmt.Fprintf(&b, "(assert %s)\n", g)
+		}
+		fmt.Fprintf(&b, "(assert (not (and %s true)))\n", strings.Join(eqs, " "))
+	} else if len(goals) == 1 {
 		fmt.Fprintf(&b, "(assert (not %s))\n", goals[0])
 	} else {
 		fmt.Fprintf(&b, "(assert (not (and %s)))\n", strings.Join(goals, " "))
